@@ -6,10 +6,14 @@
 // threads, so the thread id recorded inside a user formatter tells which side formatted.
 //
 // Per case:  case <n> alloc <shape> reg=<0|1> ccap=<size-cache capacity> qcap=<queue capacity> qused=<bytes in use>
-//                 qmax=<limit> dyn=<0|1> a=<value description>
+//                 qmax=<limit> dyn=<0|1> drained=<0|1: the backend drains the queue after this call> a=<value description>
 //            => events=<ctx>,<cachegrow>,<queuegrow>,<temp>,<usercopy>,<format>,<paircopy> ccap=<after> qcap=<after>   (re-computed by the model)
 //               new=… newarr=… malloc=… calloc=… realloc=… memalign=… mmap=… cached=<lengths cached> (raw measurement)
-// ORACLE lines = the property itself failing on the real code.
+// ORACLE lines = the property itself failing on the real code. The expected number of allocations per kind is NOT computed
+// here: `driver codec` carries the model's own state of each calling thread from its first call on (logCall, Queue.drain)
+// and prints `ORACLE allocation-not-predicted …` when the measurement exceeds what the model predicts for the statement
+// (steady state after a drain: record <= capacity => 0; twelve C strings + containers of non-strings => 0; …). The
+// oracles below cover what needs no prediction (an allocation no modelled source explains, formatter threads).
 //   h5_alloc gen <seed> <n>   |   h5_alloc replay <file>   (lines `seed <s> <n> [only <shape>]`)
 #include "codec_shapes.h"
 
@@ -352,8 +356,10 @@ static int log2_ratio(size_t after, size_t before)
 }
 
 /** one measured log call on the current (calling) thread */
+static long FORCE_COUNT = -1; // element count of the top-level sequence containers of the next generated value
 template <class... Ts, class LogFn>
-void alloc_case(Rng& rng, char const* name, char const* macro, bool dyn, std::string const& extra_desc, int extra_msgs, LogFn log)
+void alloc_case(Rng& rng, char const* name, char const* macro, bool dyn, std::string const& extra_desc, int extra_msgs, LogFn log,
+                bool drain_after = true)
 {
   std::lock_guard<std::mutex> lk{OUT_M};
   ++CASE_NO;
@@ -361,6 +367,7 @@ void alloc_case(Rng& rng, char const* name, char const* macro, bool dyn, std::st
   Arena ar;
   cur_arena() = &ar;
   Gen g{rng, ar};
+  g.force_count = FORCE_COUNT;
   std::apply([&](auto&... h) { (gen_value(g, h.v), ...); }, *hs);
   std::string desc;
   std::apply([&](auto&... h) { ((desc += (desc.empty() ? "" : ";") + val_of<std::remove_reference_t<decltype(h.v)>>(h.v)), ...); }, *hs);
@@ -398,10 +405,10 @@ void alloc_case(Rng& rng, char const* name, char const* macro, bool dyn, std::st
   constexpr bool maptemp = (MapTemp<Ts>::value || ... || false);
   // element copies of the map codecs are visible as allocations (one per copied std::string, all beyond SSO here)
   int m_pair = maptemp ? static_cast<int>(c.n_new) - m_queue - m_temp - n_nonpodstr : 0;
-  std::printf("case %ld alloc %s reg=%d ccap=%zu qcap=%zu qused=%zu qmax=%zu dyn=%d a=%s => events=%d,%d,%d,%d,%d,%d,%d ccap=%zu qcap=%zu "
+  std::printf("case %ld alloc %s reg=%d ccap=%zu qcap=%zu qused=%zu qmax=%zu dyn=%d drained=%d a=%s => events=%d,%d,%d,%d,%d,%d,%d ccap=%zu qcap=%zu "
               "new=%ld newarr=%ld malloc=%ld calloc=%ld realloc=%ld memalign=%ld mmap=%ld cached=%zu macro=%s\n",
               CASE_NO, name, q0.reg ? 1 : 0, q0.ccap, q0.qcap, q0.qused, static_cast<size_t>(quill::FrontendOptions::unbounded_queue_max_capacity),
-              dyn ? 1 : 0, desc.c_str(), m_ctx, m_cache, m_queue, m_temp, m_copy, m_fmt, m_pair, q1.ccap, q1.qcap, c.n_new, c.n_newarr,
+              dyn ? 1 : 0, drain_after ? 1 : 0, desc.c_str(), m_ctx, m_cache, m_queue, m_temp, m_copy, m_fmt, m_pair, q1.ccap, q1.qcap, c.n_new, c.n_newarr,
               c.n_malloc, c.n_calloc, c.n_realloc, c.n_memalign, c.n_mmap, q1.csize, macro);
   FAM[macro]++;
   bool listed = (n_paths + n_nonpod + n_direct) == 0;
@@ -437,6 +444,16 @@ void alloc_case(Rng& rng, char const* name, char const* macro, bool dyn, std::st
     hs.reset();
     ar.release();
   }
+  bool predicted_alloc = m_ctx || m_cache || m_queue || m_temp || n_nonpodstr;
+  if (predicted_alloc) ++N_PRED_ALLOC;
+  if (c.total_alloc() == 0) ++N_ZERO;
+  if (q1.csize > 0 || predicted_alloc || (n_nonpod + n_direct + n_defpod) > 0) ++N_NONTRIVIAL;
+  if (!drain_after)
+  {
+    // the record stays in the queue: the next statement of this thread is measured on a queue that is not empty
+    cur_arena() = nullptr;
+    return;
+  }
   PUMP.process(msgs0 + 1 + extra_msgs);
   // (4) deferred-format user types were formatted by the backend thread, and only there
   if (n_defpod && FmtTrace::tid(0).load() != PUMP.backend_tid) oracle("deferred-format-thread", std::string("shape=") + name + " pod");
@@ -444,10 +461,6 @@ void alloc_case(Rng& rng, char const* name, char const* macro, bool dyn, std::st
   if (n_nonpodstr && FmtTrace::tid(2).load() != PUMP.backend_tid) oracle("deferred-format-thread", std::string("shape=") + name + " nonpod-str");
   if (n_direct && FmtTrace::calls(3).load() != direct_calls_caller) oracle("direct-format-formatted-again-on-backend", std::string("shape=") + name);
   if (extra_msgs >= 0 && PUMP.sink->msgs.size() < msgs0 + 1) oracle("sink-count", name);
-  bool predicted_alloc = m_ctx || m_cache || m_queue || m_temp || n_nonpodstr;
-  if (predicted_alloc) ++N_PRED_ALLOC;
-  if (c.total_alloc() == 0) ++N_ZERO;
-  if (q1.csize > 0 || predicted_alloc || (n_nonpod + n_direct + n_defpod) > 0) ++N_NONTRIVIAL;
   cur_arena() = nullptr;
 }
 
@@ -584,6 +597,151 @@ static void steady(Rng& rng, int n)
   }
 }
 
+/** one measured `LOG_INFO(lg, "{}", std::string(len, 'q'))`. The value description would be up to 1.2 MB of hex: a
+    std::string of `len` bytes is given by its length only (`S~len.`), which the model sizes identically. */
+static void big_case(char const* name, size_t len, bool drain_after)
+{
+  std::string s(len, 'q');
+  std::lock_guard<std::mutex> lk{OUT_M};
+  ++CASE_NO;
+  QState q0 = qstate();
+  size_t msgs0 = PUMP.sink->msgs.size();
+  CNT = Counters{};
+  WINDOW = true;
+  LOG_INFO(PUMP.lg, "{}", s);
+  WINDOW = false;
+  Counters c = CNT;
+  QState q1 = qstate();
+  int m_queue = (q1.node != q0.node) ? 1 : 0;
+  std::printf("case %ld alloc %s reg=1 ccap=%zu qcap=%zu qused=%zu qmax=%zu dyn=0 drained=%d a=S~%zu. => events=0,0,%d,0,0,0,0 ccap=%zu qcap=%zu "
+              "new=%ld newarr=%ld malloc=%ld calloc=%ld realloc=%ld memalign=%ld mmap=%ld cached=%zu macro=LOG_INFO\n",
+              CASE_NO, name, q0.ccap, q0.qcap, q0.qused, static_cast<size_t>(quill::FrontendOptions::unbounded_queue_max_capacity),
+              drain_after ? 1 : 0, len, m_queue, q1.ccap, q1.qcap, c.n_new, c.n_newarr, c.n_malloc, c.n_calloc, c.n_realloc, c.n_memalign,
+              c.n_mmap, q1.csize);
+  FAM["LOG_INFO"]++;
+  if (c.n_new != m_queue || c.n_mmap != m_queue || c.n_newarr || c.n_malloc || c.n_calloc || c.n_realloc || c.n_memalign)
+    oracle("unexplained-allocation", std::string("shape=") + name + " len=" + std::to_string(len));
+  if (!m_queue && c.total_alloc()) oracle("alloc-in-steady-state", std::string("shape=") + name);
+  if (m_queue) ++N_PRED_ALLOC;
+  if (c.total_alloc() == 0) ++N_ZERO;
+  ++N_NONTRIVIAL;
+  if (drain_after) PUMP.process(msgs0 + 1);
+}
+
+/** a LOG_INFO with as many `{}` as arguments (the packs used below) */
+template <class... Vs>
+static void log_pack_fn(Vs&... v)
+{
+  constexpr size_t k = sizeof...(v);
+  if constexpr (k == 1)
+    LOG_INFO(PUMP.lg, "{}", v...);
+  else if constexpr (k == 13)
+    LOG_INFO(PUMP.lg, "{}{}{}{}{}{}{}{}{}{}{}{}{}", v...);
+  else
+    static_assert(k == 1 || k == 13, "add the format string");
+}
+
+/** the budget of the size cache (C11: "up to twelve variable-length C-string arguments per statement"), measured where
+    it can be seen: on a FRESH thread whose size cache has never grown (the heap capacity sticks for the life of the
+    thread), on the FIRST occurrence of the statement — the only earlier log call of the thread is a trivial one.
+    `count` >= 0 fixes the element count of the statement's top-level sequence container. */
+template <class... Ts>
+static void budget_case(Rng& rng, char const* name, long count = -1)
+{
+  if (!want(name)) return;
+  std::thread t(
+    [&]
+    {
+      alloc_case<int32_t>(rng, "first-call", "LOG_INFO", false, "", 0, [&](auto& v) { LOG_INFO(PUMP.lg, "first {}", v); });
+      FORCE_COUNT = count;
+      alloc_case<Ts...>(rng, name, "LOG_INFO", false, "", 0, [&](auto&... v) { log_pack_fn(v...); });
+      FORCE_COUNT = -1;
+    });
+  t.join();
+}
+
+using CS_ = char const*;
+#define CS12 CS_, CS_, CS_, CS_, CS_, CS_, CS_, CS_, CS_, CS_, CS_, CS_
+#define CS11 CS_, CS_, CS_, CS_, CS_, CS_, CS_, CS_, CS_, CS_, CS_
+static void budget(Rng& rng)
+{
+  // twelve C strings next to a container / optional / pair of NON-string elements: must not need a thirteenth slot
+  budget_case<CS12, std::list<int32_t>>(rng, "b-12cstr+list<i32>");
+  budget_case<CS12, std::list<std::string>>(rng, "b-12cstr+list<string>");
+  budget_case<CS12, std::vector<int32_t>>(rng, "b-12cstr+vec<i32>");
+  budget_case<CS12, std::deque<double>>(rng, "b-12cstr+deque<f64>");
+  budget_case<CS12, std::array<int32_t, 4>>(rng, "b-12cstr+array<i32,4>");
+  budget_case<CS12, std::optional<int32_t>>(rng, "b-12cstr+opt<i32>");
+  budget_case<CS12, std::pair<int32_t, double>>(rng, "b-12cstr+pair<i32,f64>");
+  budget_case<CS12, std::set<int32_t>>(rng, "b-12cstr+set<i32>");
+  budget_case<CS12, std::map<int32_t, double>>(rng, "b-12cstr+map<i32,f64>");
+  budget_case<CS11, char[8], std::list<uint8_t>>(rng, "b-11cstr+carr8+list<u8>");
+  // … whereas a forward_list takes a slot for its element count: the thirteenth (the model predicts one growth)
+  budget_case<CS12, std::forward_list<int32_t>>(rng, "b-12cstr+fwd<i32>");
+  // one container of C strings: a slot per element (and one more for a forward_list)
+  budget_case<std::list<CS_>>(rng, "b-list<cstr>x12", 12);
+  budget_case<std::list<CS_>>(rng, "b-list<cstr>x13", 13);
+  budget_case<std::vector<CS_>>(rng, "b-vec<cstr>x12", 12);
+  budget_case<std::deque<CS_>>(rng, "b-deque<cstr>x12", 12);
+  budget_case<std::forward_list<CS_>>(rng, "b-fwd<cstr>x11", 11);
+  budget_case<std::forward_list<CS_>>(rng, "b-fwd<cstr>x12", 12);
+}
+#undef CS12
+#undef CS11
+
+/** "a statement whose encoded size fits in the thread's current queue buffer performs no allocation", on the default
+    (unbounded) queue in steady state: a fresh thread, its first call, `nsmall` small records EACH completely consumed
+    by the backend (so the queue is empty, and far fewer bytes than the 5 % publish batch have been consumed since the
+    reader position was last published on the batch rule alone), then ONE std::string record of `cap - k` encoded bytes.
+    Whether that record must, or must not, allocate is the model's call (driver): it fits an EMPTY queue iff it does not
+    exceed the capacity. `undrained` > 0: a filler record of that many encoded bytes is left in the queue first — then
+    the free space is what counts. */
+static void drained_case(Rng& rng, char const* name, int nsmall, long k, size_t undrained)
+{
+  if (!want(name)) return;
+  std::thread t(
+    [&]
+    {
+      alloc_case<int32_t>(rng, "first-call", "LOG_INFO", false, "", 0, [&](auto& v) { LOG_INFO(PUMP.lg, "first {}", v); });
+      for (int i = 0; i < nsmall; ++i)
+      {
+        if (i % 2)
+          alloc_case<char const*>(rng, name, "LOG_INFO", false, "", 0, [&](auto& v) { LOG_INFO(PUMP.lg, "small {}", v); });
+        else
+          alloc_case<int32_t>(rng, name, "LOG_INFO", false, "", 0, [&](auto& v) { LOG_INFO(PUMP.lg, "small {}", v); });
+      }
+      // header (timestamp + three pointers) + uint32 length prefix of the std::string
+      size_t const overhead = sizeof(uint64_t) + 3 * sizeof(uintptr_t) + sizeof(uint32_t);
+      long const cap = static_cast<long>(quill::FrontendOptions::initial_queue_capacity);
+      if (undrained)
+      {
+        big_case(name, undrained - overhead, false);
+        big_case(name, static_cast<size_t>(cap - static_cast<long>(undrained) - k - static_cast<long>(overhead)), true);
+      }
+      else
+        big_case(name, static_cast<size_t>(cap - k - static_cast<long>(overhead)), true);
+    });
+  t.join();
+}
+
+static void drained(Rng& rng)
+{
+  // k = cap - record: 0 … just below / at / above the 5 % batch (6553 of 131072), far below; and records that do not fit
+  static long const ks[] = {0, 1, 8, 64, 1000, 6552, 6553, 6554, 20000, -1, -64};
+  for (long k : ks)
+    for (int nsmall : {3, 60})
+    {
+      std::string name = "d-cap" + std::string(k < 0 ? "+" : "-") + std::to_string(k < 0 ? -k : k) + ".s" + std::to_string(nsmall);
+      drained_case(rng, name.c_str(), nsmall, k, 0);
+    }
+  // the queue is NOT empty: 50000 bytes are still unread, the record fits the free space exactly / by one / not by one
+  for (long k : {0L, 1L, -1L})
+  {
+    std::string name = "d-free" + std::string(k < 0 ? "+" : "-") + std::to_string(k < 0 ? -k : k) + ".undrained";
+    drained_case(rng, name.c_str(), 2, k, 50000);
+  }
+}
+
 /** a fresh thread: first call, then the boundary packs in the order that makes each growth happen exactly once */
 static void fresh_thread(Rng& rng, bool big)
 {
@@ -633,33 +791,7 @@ static void fresh_thread(Rng& rng, bool big)
   else if (want("big"))
   {
     // records larger than the free space of the 128 KiB queue: growth to the next power of two that fits, once
-    for (size_t len : {size_t{140000}, size_t{140000}, size_t{600000}, size_t{100}, size_t{600000}})
-    {
-      std::string s(len, 'q');
-      std::lock_guard<std::mutex> lk{OUT_M};
-      ++CASE_NO;
-      QState q0 = qstate();
-      size_t msgs0 = PUMP.sink->msgs.size();
-      CNT = Counters{};
-      WINDOW = true;
-      LOG_INFO(PUMP.lg, "{}", s);
-      WINDOW = false;
-      Counters c = CNT;
-      QState q1 = qstate();
-      int m_queue = (q1.node != q0.node) ? 1 : 0;
-      // the value description would be 1.2 MB of hex: describe the string by a char[N]-free equivalent the model
-      // sizes identically — a std::string of `len` bytes is given as length only (S~len.)
-      std::printf("case %ld alloc big reg=1 ccap=%zu qcap=%zu qused=%zu qmax=%zu dyn=0 a=S~%zu. => events=0,0,%d,0,0,0,0 ccap=%zu qcap=%zu "
-                  "new=%ld newarr=%ld malloc=%ld calloc=%ld realloc=%ld memalign=%ld mmap=%ld cached=%zu macro=LOG_INFO\n",
-                  CASE_NO, q0.ccap, q0.qcap, q0.qused, static_cast<size_t>(quill::FrontendOptions::unbounded_queue_max_capacity), len,
-                  m_queue, q1.ccap, q1.qcap, c.n_new, c.n_newarr, c.n_malloc, c.n_calloc, c.n_realloc, c.n_memalign, c.n_mmap, q1.csize);
-      if (c.n_new != m_queue || c.n_mmap != m_queue || c.n_newarr || c.n_malloc || c.n_calloc || c.n_realloc || c.n_memalign)
-        oracle("unexplained-allocation", "shape=big len=" + std::to_string(len));
-      if (!m_queue && c.total_alloc()) oracle("alloc-in-steady-state", "shape=big");
-      if (m_queue) ++N_PRED_ALLOC;
-      ++N_NONTRIVIAL;
-      PUMP.process(msgs0 + 1);
-    }
+    for (size_t len : {size_t{140000}, size_t{140000}, size_t{600000}, size_t{100}, size_t{600000}}) big_case("big", len, true);
   }
 #undef PACK
 }
@@ -680,6 +812,9 @@ static void run_all(uint64_t seed, int n)
     std::thread t([&] { fresh_thread(rng, true); });
     t.join();
   }
+  // boundary scenarios, each on a fresh thread of its own (values differ per repetition, the boundaries do not)
+  for (int i = 0; i < (n > 2 ? 2 : n); ++i) budget(rng);
+  drained(rng);
 }
 
 int main(int argc, char** argv)
